@@ -291,6 +291,10 @@ from exactly_lib.type_val_prims.string_transformer import StringTransformer     
 from exactly_lib.util.logic_types import Quantifier                                                  # noqa: E402
 
 
+import re                                                                                             # noqa: E402
+from exactly_lib.test_case.hard_error import HardErrorException                                       # noqa: E402
+
+
 def _re_result(denotation):
     def model(interp, self, args, kwargs):
         found = interp.reg.call_opaque(interp, self, denotation, [args[0]], {})
@@ -309,7 +313,10 @@ class PatternI(Interface):
         'SEARCH': Method(returns=Bool, pure=True), 'FULL': Method(returns=Bool, pure=True),
         'SUB': Method(returns=Str, pure=True),
         'search': Method(model=_re_result('SEARCH')), 'fullmatch': Method(model=_re_result('FULL')),
-        'sub': Method(model=lambda interp, self, args, kwargs: interp.reg.call_opaque(interp, self, 'SUB', list(args), {})),
+        # an invalid replacement template (e.g. a reference to a group that does not exist) makes `sub` raise
+        'sub': Method(returns=Str, may_raise=(lambda interp, o: re.error('invalid replacement'),
+                                              lambda interp, o: IndexError('invalid group')),
+                      ensures=lambda self, repl, s, result: result == self.SUB(repl, s)),
     }
 
 
@@ -572,20 +579,25 @@ M.contract(P_QM + ':_QuantifierBase.matches_w_trace', params=dict(self=Union(EXI
 STR_REPLACER_INCL = Inst(replace_impl._StrReplacerIncludingNewLines, _regex=Iface(PatternI), _replacement=Str)
 STR_REPLACER_EXCL = Inst(replace_impl._StrReplacerExcludingNewLines, _regex=Iface(PatternI), _replacement=Str)
 
+M.contract(P_REPL + ':_StrReplacer._sub', params=dict(self=Union(STR_REPLACER_INCL, STR_REPLACER_EXCL), s=Str),
+           returns=Str, raises={HardErrorException: {}},
+           ensures={'every match is replaced': lambda self, s, result: result == self._regex.SUB(self._replacement, s)},
+           raises_only=(HardErrorException,))
+
 M.contract(P_REPL + ':_StrReplacerIncludingNewLines.process', params=dict(self=STR_REPLACER_INCL, line=Str),
-           returns=Str,
+           returns=Str, raises={HardErrorException: {}},
            ensures={'every match in the line, its new-line included, is replaced': lambda self, line, result:
                     result == self._regex.SUB(self._replacement, line)},
-           raises_only=())
+           raises_only=(HardErrorException,))
 
 M.contract(P_REPL + ':_StrReplacerExcludingNewLines.process', params=dict(self=STR_REPLACER_EXCL, line=Str),
            requires=lambda line: line != '',          # lines of a text are not empty (I_SSC)
-           returns=Str,
+           returns=Str, raises={HardErrorException: {}},
            ensures={'-preserve-new-lines: matches are replaced in the line without its new-line, which is kept':
                     lambda self, line, result:
                     result == (self._regex.SUB(self._replacement, line_body(line)) + NL if line.endswith(NL)
                                else self._regex.SUB(self._replacement, line))},
-           raises_only=())
+           raises_only=(HardErrorException,))
 
 
 class StrFnI(Interface):
@@ -683,3 +695,102 @@ M.contract(P_REPL + ':_ReplaceStringTransformer._transform',
            ensures={'the lines go to the applier': lambda self, lines, trace:
                     len(_resplit_calls(trace)) == 1 and _resplit_calls(trace)[0]['lines'] is lines},
            raises_only=())
+
+
+# ------------------------------------------------------------------------------ bounded stand-ins (DESIGN 2.6)
+# strip / strip -trailing-space / strip -trailing-new-lines and char-case are defined by Unicode classes
+# (str.isspace, strip, upper, lower) that no installed solver models: the REAL line transformations are run on
+# every text up to a bound, given as its lines, and compared with the documented result on the whole text.
+
+def _texts_upto(alphabet, max_len):
+    import itertools
+    for n in range(max_len + 1):
+        for t in itertools.product(alphabet, repeat=n):
+            yield ''.join(t)
+
+
+def _bounded_lines_transformer(ctx, name, transform, reference, alphabet, max_len):
+    failures = []
+    cases = 0
+    for t in _texts_upto(alphabet, max_len):
+        cases += 1
+        out = list(transform(iter(split_nl(t))))
+        expected = reference(t)
+        if ''.join(out) != expected or out != split_nl(expected):
+            failures.append({'input': t, 'expected': split_nl(expected), 'actual': out,
+                             'replay': 'from %s import %s as f\nfrom contracts.text_spec import split_nl\n'
+                                       'out = list(f(iter(split_nl(%r))))\nprint(out)\n'
+                                       'sys.exit(1 if out != %r else 0)\n'
+                                       % (transform.__module__, transform.__name__, t, split_nl(expected))})
+    ctx.bounded_result(name, 'every text of length <= %d over %r, given as its lines' % (max_len, alphabet), cases,
+                       True, failures,
+                       note='compared with %s; the output must also be the proper division of that text into lines'
+                            % reference.__doc__)
+
+
+def _ref_strip(t):
+    """str.strip() of the whole text"""
+    return t.strip()
+
+
+def _ref_rstrip(t):
+    """str.rstrip() of the whole text"""
+    return t.rstrip()
+
+
+def _ref_rstrip_nl(t):
+    """str.rstrip('\\n') of the whole text"""
+    return t.rstrip('\n')
+
+
+_STRIP_ALPHABET = ' \t\na\x0c'
+
+
+@M.bounded('strip (default)')
+def _b_strip(ctx):
+    from exactly_lib.impls.types.string_transformer.impl import strip_space
+    _bounded_lines_transformer(ctx, 'strip_space._strip_space', strip_space._strip_space, _ref_strip,
+                               _STRIP_ALPHABET, 7 if ctx.tier == 'thorough' else 6)
+
+
+@M.bounded('strip -trailing-space')
+def _b_strip_trailing_space(ctx):
+    from exactly_lib.impls.types.string_transformer.impl import strip_space
+    _bounded_lines_transformer(ctx, 'strip_space._strip_trailing_space', strip_space._strip_trailing_space,
+                               _ref_rstrip, _STRIP_ALPHABET, 7 if ctx.tier == 'thorough' else 6)
+
+
+@M.bounded('strip -trailing-new-lines')
+def _b_strip_trailing_new_lines(ctx):
+    from exactly_lib.impls.types.string_transformer.impl import strip_space
+    _bounded_lines_transformer(ctx, 'strip_space._strip_trailing_new_lines', strip_space._strip_trailing_new_lines,
+                               _ref_rstrip_nl, _STRIP_ALPHABET, 7 if ctx.tier == 'thorough' else 6)
+
+
+def _ref_upper(t):
+    """str.upper() of the whole text"""
+    return t.upper()
+
+
+def _ref_lower(t):
+    """str.lower() of the whole text"""
+    return t.lower()
+
+
+@M.bounded('char-case')
+def _b_char_case(ctx):
+    from exactly_lib.impls.types.string_transformer.impl import case_converters
+
+    def converter(f):
+        from exactly_lib.util.description_tree import details
+        c = case_converters._CaseConverter(details.empty(), f)
+
+        def transform(lines):
+            return c._transform(lines)
+
+        transform.__module__, transform.__name__ = 'contracts.C05_text', '_case_%s' % f.__name__
+        return transform
+
+    for f, ref in ((str.upper, _ref_upper), (str.lower, _ref_lower)):
+        _bounded_lines_transformer(ctx, 'case_converters._CaseConverter._transform(%s)' % f.__name__, converter(f), ref,
+                                   'aB\xdfΣ\n ', 6 if ctx.tier == 'thorough' else 5)
